@@ -81,4 +81,11 @@ META = {
         'note': PROOF_NOTE + 'the per-type B built-ins live in the driver, not in the theorems.',
         'technique': 'Lean 4 proof (case analysis; parametricity in the unevaluated operand) + exhaustive value-pool x construct correspondence',
     },
+    'C18': {
+        'text': 'Theorems on the model of the per-type == and <=> built-ins (nested arrays/objects as rose trees): == is reflexive and symmetric (objects: by a pigeonhole argument over distinct names), != is its negation; '
+                'inside a family (ints with booleans of one prototype, floats, strs) exactly one of <, ==, > holds, <=/>= are the unions, <=> is antisymmetric and the order is transitive; the cross-prototype int gap is a theorem '
+                '(known finding). Tied to the implementation by an exhaustive pool x pool x operator table, plus direct law checks on a wider pool.',
+        'note': PROOF_NOTE + 'maps, ranges, functions, Either/error values only in the direct law oracle; known finding: cross-prototype ints.',
+        'technique': 'Lean 4 proof (mutual structural recursion over rose trees, pigeonhole on names, String/Int order lemmas) + exhaustive pair table correspondence + direct law oracle',
+    },
 }
